@@ -5,7 +5,7 @@ from .c14 import C14, brief
 
 class C15(C14):
   id = "C15"
-  quick_examples = 800
+  quick_examples = 1200
   thorough_examples = 12000
   kinds = ("post_fifo", "post_lifo", "defer", "defer", "recall", "recall", "next_rtc",
            "next_rtc", "complete_circuit")
